@@ -68,8 +68,29 @@ def model_case(rng, tier, opts=None):
     for _ in range(8):
         r = recipes.gen_model(rng, o)
         if recipes.refs_resolvable(r):
-            return recipes.strip(r)
+            r = recipes.strip(r)
+            if rng.random() < 0.15:
+                recipes.apply_forms(r, rng)      # the same model written with other accepted argument forms
+            return r
     return None
+
+
+def deep_chain(rng, depth, fixed_bottom=False, kinds=("Any", "All", "AtLeast", "Imply", "Not", "AtMost")):
+    """a model nested `depth` levels deep (nothing in the statements bounds the depth)"""
+    node = {"k": rng.choice(["Any", "All"]), "id": None, "args": [{"k": "var", "id": "x", "b": [1, 1] if fixed_bottom else [0, 1]},
+                                                                {"k": "var", "id": "y", "b": [0, 1]}]}
+    for d in range(depth):
+        k = rng.choice(kinds)
+        leaf = {"k": "var", "id": "l%d" % d, "b": [0, 1]}
+        if k == "Imply":
+            node = {"k": "Imply", "id": None, "args": [leaf, node] if rng.random() < 0.7 else [node, leaf]}
+        elif k == "Not":
+            node = {"k": "Not", "id": None, "args": [node]}
+        elif k in ("AtLeast", "AtMost"):
+            node = {"k": k, "id": None, "args": [node, leaf], "value": rng.choice([1, 2]) if k == "AtLeast" else rng.choice([0, 1])}
+        else:
+            node = {"k": k, "id": "D%d" % d if rng.random() < 0.2 else None, "args": [node, leaf]}
+    return node
 
 
 def varied_opts(rng, tier, **kw):
